@@ -82,7 +82,14 @@ def check_pair(Gl, Gr, ms, label):
     again = red.map_into_symmetry_reduced_zone()
     # the loop runs over the pairs of two proper or two improper operations (repairs cae3bbd, 91fe48e)
     cp = code_pairs(Gl, Gr)
-    cases.append({"pairs": [[a.tolist(), b.tolist()] for a, b in cp],
+    try:
+        pa, pb = get_proper_groups(Gl, Gr)
+        pnames = [pa.name, pb.name]
+    except NotImplementedError:
+        pnames = ["", ""]
+    cases.append({"Gl": {"q": Gl.data.reshape(-1, 4).tolist(), "imp": Gl.improper.reshape(-1).astype(int).tolist()},
+                  "Gr": {"q": Gr.data.reshape(-1, 4).tolist(), "imp": Gr.improper.reshape(-1).astype(int).tolist()},
+                  "pnames": pnames,
                   "N": region.data.reshape(-1, 4).tolist(), "m": ms.tolist(), "out": red.data.reshape(-1, 4).tolist(),
                   "inside_in": (M < region).reshape(-1).astype(int).tolist(), "pair": [Gl.name, Gr.name]})
     for k in range(len(ms)):
@@ -190,4 +197,15 @@ for shape in [(1,), (2, 3), (2, 1, 2)]:
     if red.shape != shape or not np.allclose(red.data.reshape(-1, 4), flat.data):
         fail("reduce:shape-symmetry", f"reduction of shape {shape} differs from the element-wise reduction", {"shape": shape})
 
-emit({"cases": cases, "fails": fails, "strata": strata})
+# get_proper_groups on ALL ordered pairs of named groups (compared with the definition translated from its source)
+gpg = []
+for Gl in GROUPS:
+    for Gr in GROUPS:
+        try:
+            a, b = get_proper_groups(Gl, Gr)
+            gpg.append([Gl.name, Gr.name, a.name, b.name])
+        except NotImplementedError:
+            gpg.append([Gl.name, Gr.name, None, None])
+st("get_proper_groups:all-pairs")
+
+emit({"cases": cases, "fails": fails, "strata": strata, "gpg": gpg})
